@@ -1,0 +1,10 @@
+//! Verification seam (only compiled with `--cfg ldpc_toolbox_verif`).
+//!
+//! Re-exports drop-in replacements for the sources of nondeterminism used by
+//! this crate (threads, channels, the monotonic clock, the OS-seeded RNG, the
+//! CPU count, the Ctrl-C handler and the rayon pool). Modules that need them
+//! shadow the corresponding extern crate names with a `use` of these items, so
+//! no other line changes. Outside a running simulation every replacement
+//! forwards to the real item.
+
+pub use ::dstsim::shim::{ctrlc, num_cpus, rand, rayon, std};
